@@ -363,6 +363,11 @@ Definition int_range (signed : bool) (w z : Z) : bool :=
 Definition int_of (v : value) : option Z :=
   match v with VI64 z | VU64 z => Some z | _ => None end.
 
+(* the i128 / u128 visitors accept all four integer representations (num_self, num_as_self,
+   int_to_uint, num_128), each with a range check *)
+Definition int_of128 (v : value) : option Z :=
+  match v with VI64 z | VU64 z | VI128 z | VU128 z => Some z | _ => None end.
+
 Definition is_none_like (v : value) : bool :=
   match v with VNone | VUndef => true | _ => false end.
 
@@ -449,13 +454,23 @@ Fixpoint de (t : sty) (v : value) {struct t} : option sval :=
   | TUnitStruct => if is_none_like v then Some SUnitStruct else None     (* deserialize_unit_struct -> unit *)
   | TBool => match v with VBool b => Some (SBool b) | _ => None end
   | TInt w =>
-      if 64 <? w then None                                               (* Deserializer::deserialize_i128: "i128 is not supported" *)
+      if w =? 128 then                                                   (* deserialize_i128 is forwarded to deserialize_any (c8ac377) *)
+        match int_of128 v with
+        | Some z => if int_range true 128 z then Some (SInt 128 z) else None
+        | None => None
+        end
+      else if 64 <? w then None                                          (* no such Rust integer type *)
       else match int_of v with
            | Some z => if int_range true w z then Some (SInt w z) else None
            | None => None
            end
   | TUInt w =>
-      if 64 <? w then None
+      if w =? 128 then
+        match int_of128 v with
+        | Some z => if int_range false 128 z then Some (SUInt 128 z) else None
+        | None => None
+        end
+      else if 64 <? w then None
       else match int_of v with
            | Some z => if int_range false w z then Some (SUInt w z) else None
            | None => None
